@@ -46,6 +46,17 @@ CLAIMS.update({
                 note="Trusted: Lean kernel + standard axioms (decide +kernel over generated tables); tools/extract.py; rustc as the implementation of the envelope. Not formalised: Rust's type system / borrow checker.", technique="Lean 4 proof over translator-generated tables (tokens, fields, signatures) + rustc accept/reject corpus with twins", ref="§6 C18"),
 })
 
+CLAIMS.update({
+    "C01": dict(text="Theorems over world histories (run: any finite list of operations with arbitrary forged handles and arbitrary closures, continuing after panics): in every reachable world, for any Entity words, contains/fetch/toDirect accept iff the words are in the archetype's dense array (alive) and then designate that very entity; all four uses (typed/dynamic x archetype/world level) of a live handle route to its archetype and agree, in debug and release; a handle that left the dense array is rejected forever whatever happens later (non-wrapping); destroy removes exactly the designated entity. Tie: probe after structural ops over all issued handles (live and stale, positions reused many times) through every path; invariant evaluated on implementation dumps; trace oracle.",
+                note=RT_NOTE + " Wrapping configuration: false by design after a wrap (witness proved); see C08/C19.", technique="Lean 4 proof (representation invariant + history induction with a ghost 'seen' set) + differential correspondence", ref="§6 C01"),
+    "C03": dict(text="Theorems: run never reaches undefined behaviour for ANY handle words in any operation (every unchecked access of the modelled code has its precondition implied by the invariant plus the checks the code performs); lookups with arbitrary dynamic words never UB and never change the world; an accepted dynamic key (or typed key in debug, or typed key with matching id) is bit-identical to the handle of the live entity it reaches; direct keys accepted iff (index, version) is what to_direct would issue now; unknown id: clean panic at world level, None at archetype level. PARTIAL for typed keys made by from_any_unchecked with a foreign id in release builds (known finding F3: matches on (index, generation) only; witness proved).",
+                note=RT_NOTE + " Pointer arithmetic and allocation are modelled, not verified (Miri in the thorough tier as supporting evidence).", technique="Lean 4 proof (Out.ub unreachable under the invariant; case analysis of the checks) + state-derived forgery sweep in debug and release", ref="§6 C03"),
+    "C08": dict(text="Theorems (non-wrapping): a handle newly appearing in an archetype was never in it before at any earlier point of the history (three-point and create-step forms), so no create ever returns a handle issued earlier; handles of different archetypes differ in the id byte; at generation vmax the removal panics and leaves the state unchanged (nothing is reissued); with wrapping_version the documented exception is exhibited by a proved witness. vmax/maxCap come from the translator-generated constants. Tie: all issued handles checked for uniqueness per world by the oracle; preset counters near 2^32 (hook H2) then churn across the boundary in default and wrapping builds.",
+                note=RT_NOTE, technique="Lean 4 proof (ghost invariant: stale generation < slot generation) + differential correspondence incl. overflow boundary", ref="§6 C08"),
+    "C09": dict(text="Theorems over world histories (non-wrapping): a direct handle (d, version) issued for e is accepted at issue; whenever accepted later it designates e; after any loss of an entity of its archetype the version is strictly larger and every lookup answers None; while the version is unchanged (in particular under creations, growth, writes, clears, and operations on other archetypes) it stays accepted; to_direct with a direct key validates it (defect F4 repaired) and what to_direct mints is accepted. Closure-minted direct handles: C07 theorem minted_direct_designates. Tie: direct handles harvested from to_direct and from closures of all five macros, re-probed after later operations through all paths.",
+                note=RT_NOTE, technique="Lean 4 proof (version strictly monotone per removal; prefix stability between removals) + differential correspondence", ref="§6 C09"),
+})
+
 NOT_YET = {}
 
 ALL = ["C%02d" % i for i in range(1, 20)]
